@@ -17,6 +17,7 @@
    [marshal] below is the order in which pion writes them.  That Marshal of the structure with
    some attributes removed writes exactly the remaining lines, each byte-identical, is what the
    correspondence run checks on every case (the driver prints the lines of the real output).
+   Marshal returns (bytes, error): the error branch of the code is modelled too ([strip_lines_lib]).
    Executable definitions only. *)
 From Coq Require Import List NArith Bool.
 From Snow Require Import Lib.Wire Model.IpClass Model.SdpStrip.
@@ -45,12 +46,33 @@ Definition strip_sdesc (d : sdesc) : sdesc := mkSdesc (sd_session d) (map strip_
 (* the text a function hands on: the very string it was given, or freshly marshalled lines *)
 Inductive sent := Original | Lines (l : list line).
 
-(* util.StripLocalAddresses: None = desc.Unmarshal failed -> return str *)
-Definition strip_lines (p : option sdesc) : sent :=
+(* util.StripLocalAddresses, the library calls as the code has them:
+     err := desc.Unmarshal([]byte(str));  if err != nil { return str }        p = None
+     … the loop …
+     bts, err := desc.Marshal();          if err != nil { return str }        pion_marshal (stripped) = None
+     return string(bts)
+   desc.Marshal() enters as a function returning an option ([None] = it returned an error; [Some l] = the
+   lines it wrote), like the other pion calls.  BOTH failure branches hand back the ORIGINAL text. *)
+Definition strip_lines_lib (pion_marshal : sdesc -> option (list line)) (p : option sdesc) : sent :=
   match p with
   | None => Original
-  | Some d => Lines (marshal (strip_sdesc d))
+  | Some d =>
+      match pion_marshal (strip_sdesc d) with
+      | Some l => Lines l
+      | None => Original
+      end
   end.
+
+(* pion/sdp as the harness observes it on each case: [marshal_ok] = desc.Marshal() on the stripped
+   description returned no error (the driver re-runs the same library calls and reports it); when it
+   succeeds it writes [marshal] (checked on every case through the line ids of the real output).
+   pion/sdp v3.0.5 (pinned in go.mod) ends Marshal with `return m.bytes(), nil`: marshal_ok = false is a
+   dead branch today, kept because the code has it. *)
+Definition observed_marshal (marshal_ok : bool) (d : sdesc) : option (list line) :=
+  if marshal_ok then Some (marshal d) else None.
+
+Definition strip_lines (marshal_ok : bool) (p : option sdesc) : sent :=
+  strip_lines_lib (observed_marshal marshal_ok) p.
 
 (* specification vocabulary: the line is a media-level a=candidate line that pion/ice parses as a
    host candidate whose address is local, unspecified or loopback *)
@@ -66,16 +88,19 @@ Definition bad_host_line (l : line) : bool :=
                                   if !s.keepLocalAddresses { ld = {ld.Type, StripLocalAddresses(ld.SDP)} }
    client/lib Negotiate:          if !bc.keepLocalAddresses { offer = {offer.Type, StripLocalAddresses(offer.SDP)} }
    then Serialize and send.  [to_send] is the SDP string inside what goes to the broker. *)
-Definition to_send (keep : bool) (p : option sdesc) : sent :=
-  if keep then Original else strip_lines p.
+Definition to_send_lib (pion_marshal : sdesc -> option (list line)) (keep : bool) (p : option sdesc) : sent :=
+  if keep then Original else strip_lines_lib pion_marshal p.
+
+Definition to_send (keep marshal_ok : bool) (p : option sdesc) : sent :=
+  to_send_lib (observed_marshal marshal_ok) keep p.
 
 (* newSignalingServer(rawURL, keepLocalAddresses): s.keepLocalAddresses = keepLocalAddresses;
    the URL only has to parse (url_ok = url.Parse succeeded; library boundary) *)
 Definition signaling_keep (raw_url : bytes) (url_ok : bool) (keep : bool) : option bool :=
   if url_ok then Some keep else None.
 
-Definition proxy_answer_sent (raw_url : bytes) (url_ok : bool) (keep : bool) (p : option sdesc) : option sent :=
-  option_map (fun k => to_send k p) (signaling_keep raw_url url_ok keep).
+Definition proxy_answer_sent (raw_url : bytes) (url_ok : bool) (keep marshal_ok : bool) (p : option sdesc) : option sent :=
+  option_map (fun k => to_send k marshal_ok p) (signaling_keep raw_url url_ok keep).
 
 (* ClientConfig as far as newBrokerChannelFromConfig reads it *)
 Record client_config := mkCC {
@@ -91,5 +116,5 @@ Record client_config := mkCC {
 Definition channel_keep (cfg : client_config) (urls_ok : bool) : option bool :=
   if urls_ok then Some (cc_keep cfg) else None.
 
-Definition client_offer_sent (cfg : client_config) (urls_ok : bool) (p : option sdesc) : option sent :=
-  option_map (fun k => to_send k p) (channel_keep cfg urls_ok).
+Definition client_offer_sent (cfg : client_config) (urls_ok marshal_ok : bool) (p : option sdesc) : option sent :=
+  option_map (fun k => to_send k marshal_ok p) (channel_keep cfg urls_ok).
